@@ -32,7 +32,8 @@ macro "safe_prim" : tactic => `(tactic| first
   | (apply safe_subPosString; decide)
   | (apply safe_crash; assumption)
   | assumption
-  | (apply_assumption; done))
+  | (apply_assumption; done)
+  | (apply_assumption <;> not_nl))
 
 /-- one deterministic step: a primitive, a bind whose head is a primitive, a functor map, a loop without
     invariant, a case split, or a bind whose head is itself compound -/
@@ -41,6 +42,7 @@ macro "safe_step" : tactic => `(tactic| first
   | refine safe_bind (by safe_prim) fun _ _ => ?_
   | refine safe_map (by safe_prim) fun _ _ => trivial
   | refine safe_loop (I := fun _ => True) ‹_› trivial fun _ _ => ?_
+  | refine safe_ite (fun _ => ?_) (fun _ => ?_)
   | split
   | refine safe_bind (Q := fun _ => True) ?_ (fun _ _ => ?_))
 
